@@ -77,6 +77,8 @@ type engRec struct {
 	cancelFn  context.CancelFunc
 	tCmdCancel time.Time
 	cmdCancelled bool
+	tLastScanEnd time.Duration // taken by the worker itself just before Scan returns: <= time of close(done)
+	anyScan   bool
 	wiredBase uint32
 	wiredPorts int
 	wiredP0   int
@@ -133,6 +135,8 @@ func (s *recScanner) Scan(ctx context.Context, r *scan.Request) (scan.Result, er
 	}
 	rc.mu.Lock()
 	rc.open--
+	rc.tLastScanEnd = time.Since(rc.t0)
+	rc.anyScan = true
 	rc.mu.Unlock()
 	switch kind {
 	case 'r':
@@ -380,7 +384,12 @@ func runEngineCase(mode, ws, kinds, sched, cancelAt string) string {
 		return "logger-error"
 	}
 	lg := &recLogger{inner: inner, rc: rc}
+	// the exit delay "at its default or larger": the default for short target lists, 1.5 s when thousands
+	// of records may be queued at completion (the drain is wall-clock; the box may be loaded)
 	delay := command.VerifDefaultExitDelay()
+	if n > 200 && delay < 1500*time.Millisecond {
+		delay = 1500 * time.Millisecond
+	}
 	retc := make(chan struct{})
 	var tRet time.Duration
 	var tRetAbs time.Time
@@ -439,6 +448,10 @@ func runEngineCase(mode, ws, kinds, sched, cancelAt string) string {
 	early := false
 	if rc.haveDone {
 		min := rc.tDone + delay/3
+		if rc.anyScan {
+			// exact: completion cannot precede the return of the last probe
+			min = rc.tLastScanEnd + delay - time.Millisecond
+		}
 		if rc.haveCancel && rc.tCancel < min {
 			early = true
 		}
@@ -449,8 +462,12 @@ func runEngineCase(mode, ws, kinds, sched, cancelAt string) string {
 		early = true
 	}
 	conc := rc.maxOpen <= W && rc.errOther == 0 || mode == "generr"
-	return fmt.Sprintf("sc=%s;pr=%s;er=%s;fifo=%s;doneok=%s;conc=%s;ret=%s;early=%s;panic=0", digitsOf(rc.scanCount),
-		digitsOf(pr), er, fifo, b01(doneok), b01(conc), b01(ret), b01(early))
+	nput := "-"
+	if mode == "direct" {
+		nput = strconv.Itoa(len(rc.putOrder))
+	}
+	return fmt.Sprintf("sc=%s;pr=%s;er=%s;nput=%s;nout=%d;fifo=%s;doneok=%s;conc=%s;ret=%s;early=%s;panic=0", digitsOf(rc.scanCount),
+		digitsOf(pr), er, nput, len(ids), fifo, b01(doneok), b01(conc), b01(ret), b01(early))
 }
 
 // ---------------------------------------------------------------- exit delay with a fake engine
@@ -782,7 +799,7 @@ func engineFamily(r *hx.Run, comp string) {
 				}, d)
 				switch comp {
 				case "engine":
-					got[i] = "sc=;pr=;er=;fifo=-;doneok=0;conc=0;ret=0;early=0;panic=1;dump=" + d
+					got[i] = "sc=;pr=;er=;nput=-;nout=0;fifo=-;doneok=0;conc=0;ret=0;early=0;panic=1;dump=" + d
 				case "exitdelay":
 					got[i] = "pr=;ret=0;panic=1|tcancel=0;tret=0;out=-;dump=" + d
 				case "cancel":
@@ -851,7 +868,7 @@ func engineChild(jobs []engJob, outPath, only string) {
 		f.Close()
 		return
 	}
-	par := 12
+	par := 10
 	var wg sync.WaitGroup
 	sem := make(chan struct{}, par)
 	var next int64 = -1
